@@ -31,6 +31,9 @@ pub struct Build {
     expect_failure: bool,
     pack_fails: bool,
     preprocessor: bool,
+    /// this build fails while it is being prepared, before pack runs: 1 = the app directory does not exist,
+    /// 2 = copying the fixture for the preprocessor fails (dangling symbolic link in the fixture)
+    prep_fail: u8,
     steps: Vec<Step>,
 }
 
@@ -70,7 +73,7 @@ fn build_strategy(depth: u32) -> BoxedStrategy<Build> {
             if let Some(i) = steps.iter().position(|s| matches!(s, Step::Rebuild(_))) {
                 steps.truncate(i + 1);
             }
-            Build { crate_buildpack: None, expect_failure, pack_fails, preprocessor, steps }
+            Build { crate_buildpack: None, expect_failure, pack_fails, preprocessor, prep_fail: 0, steps }
         })
         .boxed()
 }
@@ -112,7 +115,7 @@ fn panic_positions(b: &Build) -> usize {
 }
 
 fn with_panic_at(b: &Build, pos: &mut isize) -> Build {
-    let mut out = Build { crate_buildpack: b.crate_buildpack, expect_failure: b.expect_failure, pack_fails: b.pack_fails, preprocessor: b.preprocessor, steps: vec![] };
+    let mut out = Build { crate_buildpack: b.crate_buildpack, expect_failure: b.expect_failure, pack_fails: b.pack_fails, preprocessor: b.preprocessor, prep_fail: b.prep_fail, steps: vec![] };
     for s in &b.steps {
         if *pos == 0 {
             out.steps.push(Step::Panic);
@@ -161,6 +164,16 @@ fn with_mismatch_at(b: &Build, idx: &mut isize) -> Build {
     out
 }
 
+fn with_prep_fail_at(b: &Build, idx: &mut isize, kind: u8) -> Build {
+    let mut out = b.clone();
+    if *idx == 0 {
+        out.prep_fail = kind;
+    }
+    *idx -= 1;
+    out.steps = b.steps.iter().map(|s| if let Step::Rebuild(i) = s { Step::Rebuild(Box::new(with_prep_fail_at(i, idx, kind))) } else { s.clone() }).collect();
+    out
+}
+
 fn build_json(b: &Build, pack_ordinal: &mut u64, fails: &mut Vec<u64>) -> Value {
     *pack_ordinal += 1;
     if b.pack_fails {
@@ -185,7 +198,12 @@ fn build_json(b: &Build, pack_ordinal: &mut u64, fails: &mut Vec<u64>) -> Value 
             Step::Rebuild(inner) => json!({"rebuild": build_json(inner, pack_ordinal, fails)}),
         })
         .collect();
-    json!({"cfg": {"builder": "heroku/builder:24", "app_dir": "fixtures/app", "buildpacks": ["heroku/nodejs"], "env": [["A", "1"]], "expect_failure": b.expect_failure, "preprocessor": b.preprocessor, "crate_buildpack": b.crate_buildpack}, "steps": steps})
+    let app_dir = match b.prep_fail {
+        1 => "fixtures/does-not-exist",
+        2 => "fixtures/broken-app",
+        _ => "fixtures/app",
+    };
+    json!({"cfg": {"builder": "heroku/builder:24", "app_dir": app_dir, "buildpacks": ["heroku/nodejs"], "env": [["A", "1"]], "expect_failure": b.expect_failure, "preprocessor": b.preprocessor || b.prep_fail == 2, "crate_buildpack": b.crate_buildpack}, "steps": steps})
 }
 
 /// (scenario json for the worker, pack-fail sequence)
@@ -287,8 +305,11 @@ pub fn judge(o: &TrOutcome, fail_at: Option<u64>) -> Check {
     for e in &o.log {
         if removal_kind(e).is_some() {
             for t in argv(e).iter().skip(1).filter(|t| !t.starts_with('-') && *t != "remove" && *t != "rm") {
+                // a name that existed before the run is foreign; a name of the run's own that never came into existence (the
+                // build failed before pack ran) removes nothing
                 let ours = images.contains(t) || volumes.contains(t) || containers.iter().any(|(n, _)| n == t);
-                ensure!(ours, "C16:foreign-resource-removed", "removal command names {t:?} which this run did not create: {:?}", argv(e));
+                let existed_before = o.foreign.iter().any(|f| f.split_once('/').map(|x| x.1).unwrap_or(f) == t.as_str());
+                ensure!(ours || !existed_before, "C16:foreign-resource-removed", "removal command names {t:?} which existed before the run: {:?}", argv(e));
             }
         }
     }
@@ -418,6 +439,12 @@ fn check(ctx: &Ctx, scratch: &Path, b: &Build, stash: &std::cell::RefCell<Option
         let mut idx = m as isize;
         variants.push((Scenario { build: with_mismatch_at(b, &mut idx), fail_at: None }, "unexpected-pack-result", format!("with an unexpected pack result at build {m}")));
     }
+    for m in 0..builds_in(b) {
+        for (kind, what) in [(1u8, "a missing app directory"), (2u8, "a fixture that cannot be copied for the preprocessor")] {
+            let mut idx = m as isize;
+            variants.push((Scenario { build: with_prep_fail_at(b, &mut idx, kind), fail_at: None }, "build-fails-before-pack", format!("with build {m} failing before pack runs ({what})")));
+        }
+    }
     // crate-buildpack variants each run a cargo build: fewer at a time
     let threads = if b.crate_buildpack.is_some() { (crate::core::ncpu() / 4).max(2) } else { crate::core::ncpu() };
     let results = crate::core::par_map(&variants, threads, |(sc, kind, _)| exec_one(scratch, sc, kind));
@@ -439,14 +466,14 @@ fn crate_scenario_strategy() -> impl Strategy<Value = Build> {
         let kind = if ws { "workspace" } else { "current" };
         let mut steps: Vec<Step> = sboms.iter().map(|_| Step::DownloadSbom).collect();
         if let Some((pre2, crate2)) = rebuild {
-            steps.push(Step::Rebuild(Box::new(Build { crate_buildpack: if crate2 { Some(kind) } else { None }, expect_failure: false, pack_fails: false, preprocessor: pre2, steps: vec![Step::DownloadSbom] })));
+            steps.push(Step::Rebuild(Box::new(Build { crate_buildpack: if crate2 { Some(kind) } else { None }, expect_failure: false, pack_fails: false, preprocessor: pre2, prep_fail: 0, steps: vec![Step::DownloadSbom] })));
         }
-        Build { crate_buildpack: Some(kind), expect_failure: false, pack_fails: false, preprocessor, steps }
+        Build { crate_buildpack: Some(kind), expect_failure: false, pack_fails: false, preprocessor, prep_fail: 0, steps }
     })
 }
 
 pub fn run(ctx: &Ctx) {
-    ctx.set_rule("scenario trees up to depth 3 built from build / rebuild (reusing the image) / start_container (detached; logs_now, logs_wait, address_for_port, shell_exec, panic inside) / run_shell_command / download_sbom_files / panic, both expected pack results x pack succeeding/failing, with/without app preprocessor, interpreted by a worker process through the public TestRunner API against stand-in docker and pack executables that record every argv and keep a state directory pre-seeded with foreign images/volumes/containers; for every generated fault-free tree EVERY single fault is enumerated: no fault; the k-th external command (pack build, docker run, logs, port, exec, sbom download, rm, rmi, volume rm) exiting non-zero for every k; a panic at every step position of every closure; an unexpected pack result at every build node. Oracle: invariant over the recorded command history and the final state after the worker has ended: detached containers force-removed once after their last use; image and both cache volumes force-removed exactly once after their last use (once in total across rebuild chains); removals name only identifiers of this run and all foreign resources still exist; nothing created by the run remains unless the failed command was that very removal; TMPDIR empty. Non-trivial: the scenario starts >= 1 detached container and contains a fault (panic or failing command); distinct = hash of the scenario.");
+    ctx.set_rule("scenario trees up to depth 3 built from build / rebuild (reusing the image) / start_container (detached; logs_now, logs_wait, address_for_port, shell_exec, panic inside) / run_shell_command / download_sbom_files / panic, both expected pack results x pack succeeding/failing, with/without app preprocessor, interpreted by a worker process through the public TestRunner API against stand-in docker and pack executables that record every argv and keep a state directory pre-seeded with foreign images/volumes/containers; for every generated fault-free tree EVERY single fault is enumerated: no fault; the k-th external command (pack build, docker run, logs, port, exec, sbom download, rm, rmi, volume rm) exiting non-zero for every k; a panic at every step position of every closure; an unexpected pack result at every build node; every build or rebuild failing before pack runs (app directory missing; fixture with a dangling link that cannot be copied for the preprocessor). Oracle: invariant over the recorded command history and the final state after the worker has ended: detached containers force-removed once after their last use; image and both cache volumes force-removed exactly once after their last use (once in total across rebuild chains); removals name only identifiers of this run and all foreign resources still exist; nothing created by the run remains unless the failed command was that very removal; TMPDIR empty. Non-trivial: the scenario starts >= 1 detached container and contains a fault (panic or failing command); distinct = hash of the scenario.");
     ctx.assume("crate-buildpack scenarios (BuildpackReference::CurrentCrate / WorkspaceBuildpack) compile a dependency-free crate for the host gnu triple and therefore start no containers");
     ctx.assume("docker and pack are modelled by a stand-in (exit codes, --force semantics: forced removal of a missing name succeeds); single faults only");
     let scratch = Scratch::new("c16");
